@@ -411,3 +411,89 @@ Section UPollPrefix.
       f_equal. apply IH; [intros C; apply Hf; right; exact C|lia].
   Qed.
 End UPollPrefix.
+
+(* ---------- a polling consumer on a file that reads as records then End ---------- *)
+
+Lemma forallb_end_repeat : forall {C} (l : list (outcome C)),
+  forallb (fun o => match o with Ok None => true | _ => false end) l = true -> l = repeat (Ok None) (length l).
+Proof.
+  intros C. induction l as [|o l IH]; intros H; [reflexivity|].
+  cbn [forallb] in H. apply andb_prop in H. destruct H as [H1 H2].
+  destruct o as [[r|]|e|s|]; try discriminate H1. cbn [length repeat]. f_equal. exact (IH H2).
+Qed.
+
+Lemma polls_records_then_end : forall {C} (recs : list (record C)) (P : list (outcome C)),
+  firstn (S (length recs)) P = map (fun r => Ok (Some r)) recs ++ [Ok None] ->
+  end_final P = true ->
+  P = map (fun r => Ok (Some r)) recs ++ repeat (Ok None) (length P - length recs).
+Proof.
+  intros C. induction recs as [|r recs IH]; intros P HF HE.
+  - destruct P as [|o P']; [discriminate HF|]. cbn in HF. injection HF as ->.
+    cbn [end_final] in HE. cbn [map app length]. rewrite Nat.sub_0_r. cbn [repeat]. f_equal.
+    exact (forallb_end_repeat P' HE).
+  - destruct P as [|o P']; [discriminate HF|]. cbn [length map app firstn] in HF.
+    injection HF as -> HF. cbn [end_final] in HE. cbn [map app length Nat.sub]. f_equal.
+    exact (IH P' HF HE).
+Qed.
+
+Section JPollExtend.
+  Variable precord : parser (record N).
+  Hypothesis Hp : pspec lf_spec precord.
+  Variables U S : nat.
+  Hypothesis HU : U <= S.
+
+  Theorem j_polls_extend_read : forall n caps es, wf_estream es ->
+    length (j_read_e_g true U S precord caps es) <= n ->
+    firstn (length (j_read_e_g true U S precord caps es)) (j_polls_e_g true precord n caps 0 (j_new_e U S es))
+    = j_read_e_g true U S precord caps es.
+  Proof.
+    intros n caps es H Hn. pose proof (j_read_e_total precord Hp U S HU caps es H) as T.
+    apply holds_c15_no_fuel in T. exact (j_run_polls_prefix _ _ _ caps 0 _ n T Hn).
+  Qed.
+
+  (* a file that the stop-consumer reads as records then End: the polling consumer sees the records,
+     then End for ever *)
+  Theorem j_polls_records_then_end : forall n caps es recs, wf_estream es ->
+    j_read_e_g true U S precord caps es = map (fun r => Ok (Some r)) recs ++ [Ok None] ->
+    length recs < n ->
+    j_polls_e_g true precord n caps 0 (j_new_e U S es) = map (fun r => Ok (Some r)) recs ++ repeat (Ok None) (n - length recs).
+  Proof.
+    intros n caps es recs H R Hn.
+    pose proof (j_polls_e_new_total precord Hp U S HU n caps es H) as [L _].
+    pose proof (j_polls_e_new_end_final true precord U S n caps es H) as E.
+    pose proof (j_polls_extend_read n caps es H) as X. rewrite R in X.
+    rewrite app_length, map_length in X. cbn [length] in X. rewrite Nat.add_1_r in X.
+    specialize (X ltac:(lia)).
+    pose proof (polls_records_then_end recs _ X E) as P.
+    refine (eq_trans P _). do 3 f_equal. exact L.
+  Qed.
+End JPollExtend.
+
+Section UPollExtend.
+  Variable A : alphabet.
+  Hypothesis HA : forall c k, aindex A c = Some k -> k < aK A.
+  Variable parse_f32 : list N -> option F32.t.
+
+  Theorem uniprobe_polls_extend_read : forall n es, wf_estream es ->
+    length (uniprobe_read_e A parse_f32 es) <= n ->
+    firstn (length (uniprobe_read_e A parse_f32 es)) (uniprobe_polls_e A parse_f32 n es) = uniprobe_read_e A parse_f32 es.
+  Proof.
+    intros n es H Hn. pose proof (uniprobe_read_e_total A HA parse_f32 es H) as T.
+    apply holds_c15_no_fuel in T. exact (u_run_polls_prefix A parse_f32 _ _ _ n T Hn).
+  Qed.
+
+  Theorem uniprobe_polls_records_then_end : forall n es recs, wf_estream es ->
+    uniprobe_read_e A parse_f32 es = map (fun r => Ok (Some r)) recs ++ [Ok None] ->
+    length recs < n ->
+    uniprobe_polls_e A parse_f32 n es = map (fun r => Ok (Some r)) recs ++ repeat (Ok None) (n - length recs).
+  Proof.
+    intros n es recs H R Hn.
+    pose proof (uniprobe_polls_e_total A HA parse_f32 n es H) as [L _].
+    pose proof (uniprobe_polls_e_end_final A HA parse_f32 n es H) as E.
+    pose proof (uniprobe_polls_extend_read n es H) as X. rewrite R in X.
+    rewrite app_length, map_length in X. cbn [length] in X. rewrite Nat.add_1_r in X.
+    specialize (X ltac:(lia)).
+    pose proof (polls_records_then_end recs _ X E) as P.
+    refine (eq_trans P _). do 3 f_equal. exact L.
+  Qed.
+End UPollExtend.
